@@ -118,6 +118,21 @@ pub struct Fault {
     pub flag: Option<String>,
     #[serde(default)]
     pub errno: Option<i32>,
+    /// fd_limit: number of descriptors the process may hold from now on (0 = lift the limit again)
+    #[serde(default)]
+    pub n: Option<u64>,
+}
+
+/// Descriptor exhaustion as a fault: lower (or restore) the soft RLIMIT_NOFILE of this process. Every descriptor
+/// is allocated by this single-threaded process in a deterministic order, so the failing call is the same in every run.
+pub fn set_fd_limit(n: u64) {
+    unsafe {
+        let mut r: libc::rlimit = std::mem::zeroed();
+        if libc::getrlimit(libc::RLIMIT_NOFILE, &mut r) == 0 {
+            r.rlim_cur = if n == 0 { r.rlim_max } else { n.min(r.rlim_max) };
+            libc::setrlimit(libc::RLIMIT_NOFILE, &r);
+        }
+    }
 }
 
 #[derive(Deserialize, Debug, Clone)]
@@ -365,6 +380,18 @@ async fn run_faults(faults: Vec<Fault>) {
                     sim::set_unreachable(ip, false)
                 }
             }
+            "mute" => {
+                if let Some(ip) = ip {
+                    sim::set_muted(ip, true)
+                }
+            }
+            "unmute" => {
+                if let Some(ip) = ip {
+                    sim::set_muted(ip, false)
+                }
+            }
+            "fd_limit" => set_fd_limit(f.n.unwrap_or(0)),
+            "accept_error" => sim::inject_accept_error(f.port.unwrap_or(0), f.errno.unwrap_or(libc::ECONNABORTED)),
             "reset_host" => {
                 if let Some(ip) = ip {
                     sim::reset_conns_of(ip);
@@ -427,6 +454,7 @@ async fn director(plan: Plan) {
 }
 
 fn write_result(plan: &Plan, extra: Value) {
+    set_fd_limit(0);
     let sh = shared();
     let events: Vec<Value> = if plan.want_events {
         sim::take_events()
